@@ -208,4 +208,68 @@ Section Store.
     - destruct (run_frame (fun j => j < length s) ops _ _ Hm HA (closed_below s new Hw) Hr) as [F _].
       apply F. lia.
   Qed.
+  (* ---------------------------------------------------------- set_params on a model *)
+  Lemma get_s_upd_other (s : @store T) l o k : k <> l -> get_s (upd s l o) k = get_s s k.
+  Proof. intros H. unfold get_s. rewrite nth_upd_other by assumption. reflexivity. Qed.
+  Lemma get_e_upd_other (s : @store T) l o k : k <> l -> get_e (upd s l o) k = get_e s k.
+  Proof. intros H. unfold get_e. rewrite nth_upd_other by assumption. reflexivity. Qed.
+  Lemma get_t_upd_other (s : @store T) l o k : k <> l -> get_t (upd s l o) k = get_t s k.
+  Proof. intros H. unfold get_t. rewrite nth_upd_other by assumption. reflexivity. Qed.
+
+  (* FactorizedFluxModel.set_params = MathFunction.set_params on Phi0, then the SAME dictionary on
+     the spatial, energy and time profile: the model's view afterwards consists of the
+     component-wise updated profiles *)
+  Theorem ffm_set_params_view (s : @store T) l pd Phi0 ls le lt sp ep tp :
+    nth_error s l = Some (OM Phi0 ls le lt) ->
+    get_s s ls = Ok sp -> get_e s le = Ok ep -> get_t s lt = Ok tp ->
+    exists s' b, obj_set_params N s l pd = Ok (s', b)
+      /\ view_of s' l =
+           Ok (VM (fst (set_params_gen N (fun (x : T) n => if pname_beq n nPhi0 then Some x else None)
+                                         (fun (x : T) n v => if pname_beq n nPhi0 then v else x) [nPhi0] pd Phi0))
+                  (fst (s_set_params N pd sp)) (fst (e_set_params N pd ep)) (fst (t_set_params N pd tp))).
+  Proof.
+    intros Hl Hs He Ht.
+    assert (Ns := get_s_inv _ _ _ Hs). assert (Ne := get_e_inv _ _ _ He). assert (Nt := get_t_inv _ _ _ Ht).
+    assert (D1 : ls <> l) by (intros ->; rewrite Hl in Ns; discriminate).
+    assert (D2 : le <> l) by (intros ->; rewrite Hl in Ne; discriminate).
+    assert (D3 : lt <> l) by (intros ->; rewrite Hl in Nt; discriminate).
+    assert (D4 : le <> ls) by (intros ->; rewrite Ns in Ne; discriminate).
+    assert (D5 : lt <> ls) by (intros ->; rewrite Ns in Nt; discriminate).
+    assert (D6 : lt <> le) by (intros ->; rewrite Ne in Nt; discriminate).
+    unfold obj_set_params. rewrite Hl. cbv zeta.
+    set (r0 := set_params_gen N _ _ [nPhi0] pd Phi0).
+    set (s0 := upd s l (OM (fst r0) ls le lt)).
+    replace (get_s s0 ls) with (@Ok (@sprof T) sp)
+      by (unfold s0; rewrite get_s_upd_other by assumption; symmetry; exact Hs).
+    cbn [bind].
+    set (s1 := upd s0 ls (OS (fst (s_set_params N pd sp)))).
+    assert (G1 : get_e s1 le = Ok ep).
+    { unfold s1, s0. rewrite get_e_upd_other, get_e_upd_other by assumption. exact He. }
+    rewrite G1. cbn [bind].
+    set (s2 := upd s1 le (OE (fst (e_set_params N pd ep)))).
+    assert (G2 : get_t s2 lt = Ok tp).
+    { unfold s2, s1, s0. rewrite !get_t_upd_other by assumption. exact Ht. }
+    rewrite G2. cbn [bind].
+    eexists. eexists. split; [reflexivity|].
+    assert (M0 : nth_error s0 l = Some (OM (fst r0) ls le lt)) by (eapply nth_upd_same; eauto).
+    assert (S0 : nth_error s0 ls = Some (OS sp)) by (unfold s0; rewrite nth_upd_other by assumption; exact Ns).
+    assert (S1 : nth_error s1 ls = Some (OS (fst (s_set_params N pd sp)))) by (eapply nth_upd_same; eauto).
+    assert (E1 : nth_error s1 le = Some (OE ep)) by (apply get_e_inv; exact G1).
+    assert (E2 : nth_error s2 le = Some (OE (fst (e_set_params N pd ep)))) by (eapply nth_upd_same; eauto).
+    assert (T2 : nth_error s2 lt = Some (OT tp)) by (apply get_t_inv; exact G2).
+    unfold view_of.
+    rewrite (nth_upd_other s2 lt _ l) by auto. unfold s2 at 1. rewrite (nth_upd_other s1 le _ l) by auto.
+    unfold s1 at 1. rewrite (nth_upd_other s0 ls _ l) by auto. rewrite M0.
+    unfold get_s, get_e, get_t.
+    rewrite (nth_upd_other s2 lt _ ls) by auto. unfold s2 at 1. rewrite (nth_upd_other s1 le _ ls) by auto. rewrite S1.
+    rewrite (nth_upd_other s2 lt _ le) by auto. rewrite E2.
+    rewrite (nth_upd_same s2 lt _ _ T2). reflexivity.
+  Qed.
+
+  (* copy() is deepcopy (kernel mf_copy) and copy(newparams) additionally set_params on the copy *)
+  Lemma step_copy s l : step N s (OpCopy l) = (do r <- obj_copy s l; Ok (fst r)).
+  Proof. cbn [step]. destruct (obj_copy s l); reflexivity. Qed.
+  Lemma step_copy_with s l pd :
+    step N s (OpCopyWith l pd) = (do r <- obj_copy s l; do r2 <- obj_set_params N (fst r) (snd r) pd; Ok (fst r2)).
+  Proof. cbn [step]. destruct (obj_copy s l); reflexivity. Qed.
 End Store.
